@@ -269,14 +269,17 @@ func runC02(r *Report) {
 			return
 		}
 		cnt := func(v ssa.Value) bool {
-			return derivesOnlyFrom(stripIntConv(v), func(x ssa.Value) bool {
+			return sumsOnlyOf(stripIntConv(v), func(x ssa.Value) bool {
+				if k, isk := constInt(x); isk && k == 0 {
+					return true
+				}
 				ex, ok := x.(*ssa.Extract)
 				if !ok || ex.Index != 0 {
 					return false
 				}
 				c, ok := ex.Tuple.(*ssa.Call)
 				return ok && c.Call.StaticCallee() == readAt
-			})
+			}) && !func() bool { _, isC := stripIntConv(v).(*ssa.Const); return isC }()
 		}
 		if (cnt(bo.X) && isRemaining(bo.Y)) || (cnt(bo.Y) && isRemaining(bo.X)) {
 			// its true edge leads to err = io.EOF
@@ -414,6 +417,31 @@ func c02R5(r *Report) {
 							b, isb := constBool(retResults(ret)[0])
 							if !isb || b != held(ret) {
 								good = false
+							}
+						}
+						if good && acq == nil {
+							// handle.lock(context.Background()): the only way not to get the semaphore is the
+							// context's Done channel, and this context has none: the call returns holding it
+							for i, a := range c.Call.Args {
+								bg, isCall := a.(*ssa.Call)
+								if !isCall || !(isStdCall(bg, "context", "", "Background") || isStdCall(bg, "context", "", "TODO")) || i >= len(h.Params) {
+									continue
+								}
+								onlyDone := true
+								for _, op := range chanOpsIn(h) {
+									for _, st := range op.States {
+										if st.Dir == types.SendOnly && chanSourceOf(st.Chan).Field == sema {
+											continue
+										}
+										dc, isDone := st.Chan.(*ssa.Call)
+										if !(st.Dir == types.RecvOnly && isDone && dc.Call.IsInvoke() && dc.Call.Method.Name() == "Done" && dc.Call.Value == ssa.Value(h.Params[i])) {
+											onlyDone = false
+										}
+									}
+								}
+								if onlyDone {
+									acq = c
+								}
 							}
 						}
 						if good {
